@@ -292,6 +292,9 @@ func TestWorker(t *testing.T) {
 				vs = append(vs, v.Rule)
 			}
 			emit(map[string]any{"type": "hash", "run": run, "trace_sha256": rr.TraceHash, "violations": vs, "tape_len": len(tp.Log)})
+			if os.Getenv("VERIF_EMIT_TRACE") != "" {
+				emit(map[string]any{"type": "trace", "run": run, "trace": rr.Trace})
+			}
 		}
 		if len(sum.Samples) < 3 && (rr.Nontrivial || i > 50) {
 			tr := rr.Trace
